@@ -1,4 +1,5 @@
 """C10 MTBDD arithmetic — terminal/base cases of every operator (E-TABLE) ..."""
+import ecof
 import eeval
 import ecache
 import ewrap
@@ -55,4 +56,10 @@ def run(ctx):
                 "yield their value), plus the initial call and the multi-threaded delegation.")
     n = eeval.run(ctx, F, only=("mtbdd",))
     ctx.floor("E-EVAL", "interpreted eval situations", n, 6)
+    ctx.explain("E-TABLE.cof: DiagramRules::cofactors (driven through its iterator's own next) and DiagramRules::cofactor (override "
+                "or trait default) are interpreted on a node whose children carry every tag combination, for every incoming "
+                "tag: the i-th result is the i-th child with the incoming tag applied (the builtin the step rules assume); "
+                "cofactors_node / cofactors_edge hand out cofactor 0, 1[, 2] of the edge's own tag and node, None for terminals.")
+    n = ecof.run(ctx, F, only=("mtbdd",))
+    ctx.floor("E-TABLE.cof", "interpreted cofactor situations", n, 3)
     ctx.not_decided = "non-overflow arithmetic of the terminal types, Div rounding, float behaviour"
